@@ -1394,12 +1394,21 @@ class Stage:
                 subst_to.append(ret.t0)
             elif is_equal(k, self.t):
                 subst_to.append(ret.t)
+            elif is_equal(k, self.DT):
+                subst_to.append(ret.DT)
+            elif is_equal(k, self.DT_control):
+                subst_to.append(ret.DT_control)
             else:
                 subst_to.append(MX.sym(k.name(), k.sparsity()))
+        # The template's own symbols may also occur inside placeholder expressions and dynamics
+        def subst(e):
+            return substitute([e], subst_from, subst_to)[0] if isinstance(e, MX) else e
         for k_old, k_new in zip(subst_from, subst_to):
-            ret._placeholders[k_new] = self._placeholders[k_old]
+            name, expr, args, kw = self._placeholders[k_old]
+            ret._placeholders[k_new] = (name, subst(expr), args, kw)
 
         ret.states = copy(self.states)
+        ret.qstates = copy(self.qstates)
         ret.controls = copy(self.controls)
         ret.algebraics = copy(self.algebraics)
         ret.parameters = deepcopy(self.parameters)
@@ -1407,10 +1416,10 @@ class Stage:
 
         ret._offsets = deepcopy(self._offsets)
         ret._param_vals = copy(self._param_vals)
-        ret._state_der = copy(self._state_der)
+        ret._state_der = HashDict((k, subst(v)) for k, v in self._state_der.items())
         ret._scale_der = copy(self._scale_der)
-        ret._alg = copy(self._alg)
-        ret._state_next = copy(self._state_next)
+        ret._alg = [subst(a) for a in self._alg]
+        ret._state_next = HashDict((k, subst(v)) for k, v in self._state_next.items())
         constr_types = self._constraints.keys()
         orig = []
         for k in constr_types:
